@@ -1022,7 +1022,11 @@ def nontrivial(case: dict, obs: dict) -> bool:
 
 
 def one_case(ctx: fw.Ctx, case: dict, stub: bool, cases: list[fw.Case]) -> None:
-    obs = observe(case, stub)
+    try:
+        obs = observe(case, stub)
+    except Exception as e:      # the unchanged pipeline never raises on these inputs (C02_pipeline_defined)
+        ctx.fail('the processing step raised', {'layer': 'function', 'stub': stub, 'case': case}, observed=repr(e), sig='step-raised')
+        return
     want = case['reason']
     if obs['reason'] != want:
         ctx.correspondence_break('D:progress', {'what': 'the generated body did not yield the wanted cause', 'want': want,
@@ -1134,7 +1138,11 @@ def run_history(ctx: fw.Ctx, hist: dict, cases: list[fw.Case]) -> None:
                 'script': hist['script'], 'initial': bool(mem['noticed_by_listing'] and not mem['fully_handled_once']),
                 'default_outcome': {'final': True, 'exc': None, 'delay': None, 'result': None, 'subrefs': []},
                 'history_step': si}
-        obs = observe_on(case, raw, settings, False, {'noticed_by_listing': mem['noticed_by_listing']})
+        try:
+            obs = observe_on(case, raw, settings, False, {'noticed_by_listing': mem['noticed_by_listing']})
+        except Exception as e:
+            ctx.fail('the processing step raised', {'layer': 'function-history', 'history': hist, 'step': si}, observed=repr(e), sig='step-raised')
+            return
         judge(ctx, {**case, 'history': {k: hist[k] for k in ('start', 'steps')}}, obs, False, cases, replay_restart=False)
         # ids whose record was dropped in this step (whether matched by a known finding or not) explain a later re-run
         for k, m0 in obs['body_records'].items():
@@ -1204,13 +1212,13 @@ def differential(ctx: fw.Ctx) -> None:
             hist = item['function_history']
             hist['script'] = int_keys(hist['script'])
             run_history(ctx, hist, children)
-    for _ in range(ctx.scale(1100, 30000)):
+    for _ in range(ctx.scale(1100, 12000)):
         one_case(ctx, gen_case(r, True), True, pipeline)
-    for _ in range(ctx.scale(350, 9000)):
+    for _ in range(ctx.scale(350, 4000)):
         one_case(ctx, gen_case(r, False), False, children)
-    for _ in range(ctx.scale(90, 2500)):
+    for _ in range(ctx.scale(90, 1000)):
         run_history(ctx, gen_history(r), children)
-    algebra = algebra_cases(ctx, ctx.scale(400, 8000))
+    algebra = algebra_cases(ctx, ctx.scale(400, 3000))
     ctx.differential('progress_pipeline', HEADER, pipeline, shard=120)
     ctx.differential('progress_children', HEADER, children, shard=120)
     ctx.differential('progress_algebra', HEADER, algebra, shard=120)
